@@ -8,16 +8,18 @@ Delay, AuEncode, RationalResampler.
 -/
 namespace RR.Blk
 
-/-- Delay (no pending `set_delay`): it waits for output space only when there is none; it waits for
-input only when the window is empty (the zeros it could emit are emitted in the same call); otherwise it
-moves at least one sample, within both windows. -/
+/-- Delay (no pending `set_delay`): it waits for output space when there is none, or when the window is empty
+and the zeros it owes have filled all the room there was (more are owed); it waits for input only when the window
+is empty and no zeros are owed any more (those it could emit were emitted in the same call); otherwise it moves
+at least one sample, within both windows. -/
 theorem delay_verdicts (cd : Nat) (w : List Nat) (ts : List Tag) (f : Nat) :
     let r := delayWork ⟨cd, 0⟩ ⟨[⟨w, ts, true⟩], [⟨f, true⟩]⟩
     let n := r.2.consumed.getD 0 0
     let p := (r.2.produced.getD 0 ⟨[], []⟩).samples
     n ≤ w.length ∧ p.length ≤ f ∧
     ((r.2.verdict = .waitOut 0 1 ∧ f = 0 ∧ n = 0 ∧ p = []) ∨
-     (r.2.verdict = .waitIn 0 1 ∧ 0 < f ∧ w = [] ∧ n = 0 ∧ p.length = min cd f) ∨
+     (r.2.verdict = .waitOut 0 1 ∧ 0 < f ∧ w = [] ∧ n = 0 ∧ p.length = f ∧ f < cd) ∨
+     (r.2.verdict = .waitIn 0 1 ∧ 0 < f ∧ w = [] ∧ n = 0 ∧ p.length = cd ∧ cd ≤ f) ∨
      (r.2.verdict = .again ∧ 0 < f ∧ w ≠ [] ∧ 0 < n + p.length)) := by
   intro r n p
   simp only [r, n, p, delayWork, in0, out0, noOut, List.getD_cons_zero]
@@ -42,14 +44,20 @@ theorem delay_verdicts (cd : Nat) (w : List Nat) (ts : List Tag) (f : Nat) :
       have hc : (((0 : Nat) == 0 && (0 : Nat) == 0) = true) := by decide
       simp only [hc, if_true, List.getD_cons_zero, List.length_replicate]
       refine ⟨Nat.le_refl _, hnzf, ?_⟩
-      right; left
-      exact ⟨trivial, by omega, trivial, trivial, hnzv⟩
+      right
+      by_cases hcd : cd - nz > 0
+      · left
+        rw [if_pos hcd]
+        exact ⟨rfl, by omega, trivial, trivial, by omega, by omega⟩
+      · right; left
+        rw [if_neg hcd]
+        exact ⟨rfl, by omega, trivial, trivial, by omega, by omega⟩
     · have hwn : w ≠ [] := fun h => hw (by simp [h])
       have hb : (w.length == 0) = false := by simpa using hw
       simp only [hb, Bool.and_false, Bool.false_eq_true, if_false, List.getD_cons_zero,
         List.length_append, List.length_replicate, List.length_take]
       refine ⟨Nat.min_le_left _ _, by omega, ?_⟩
-      right; right
+      right; right; right
       refine ⟨trivial, by omega, hwn, ?_⟩
       -- either zeros or samples were moved
       by_cases hz : nz = 0
